@@ -158,6 +158,65 @@ theorem findRange_complete {rs : List Range} {a : Nat} {r : Range} (hs : Sep rs)
   have : r.lo ≤ a ∧ a ≤ r.hi := ⟨h1, by omega⟩
   simp [this]
 
+/-! ## sorting non-overlapping extents -/
+
+/-- extents that do not overlap, in any order -/
+def Disj (rs : List Range) : Prop :=
+  rs.Pairwise (fun a b => a.hi ≤ b.lo ∨ b.hi ≤ a.lo) ∧ ∀ x ∈ rs, x.lo < x.hi
+
+theorem sep_insertByLo (x : Range) (hx : x.lo < x.hi) : ∀ (l : List Range), Sep l →
+    (∀ y ∈ l, x.hi ≤ y.lo ∨ y.hi ≤ x.lo) → Sep (insertByLo x l)
+  | [], _, _ => by
+    unfold insertByLo
+    exact ⟨by simp, by intro y hy; simp at hy; subst hy; exact hx⟩
+  | y :: ys, hs, hd => by
+    have hy : y.lo < y.hi := hs.2 y (by simp)
+    have hpw := List.pairwise_cons.mp hs.1
+    unfold insertByLo
+    by_cases hle : x.lo ≤ y.lo
+    · simp only [hle, if_true]
+      refine ⟨List.pairwise_cons.mpr ⟨?_, hs.1⟩, ?_⟩
+      · intro z hz
+        rcases List.mem_cons.mp hz with hz | hz
+        · subst hz
+          rcases hd z (by simp) with h | h
+          · exact h
+          · omega
+        · have h1 := hpw.1 z hz
+          have hz' : z.lo < z.hi := hs.2 z (by simp [hz])
+          rcases hd z (by simp [hz]) with h | h
+          · exact h
+          · omega
+      · intro z hz
+        rcases List.mem_cons.mp hz with hz | hz
+        · subst hz; exact hx
+        · exact hs.2 z hz
+    · simp only [hle, if_false]
+      have hs' : Sep ys := ⟨hpw.2, fun z hz => hs.2 z (by simp [hz])⟩
+      have ih := sep_insertByLo x hx ys hs' (fun z hz => hd z (by simp [hz]))
+      refine ⟨List.pairwise_cons.mpr ⟨?_, ih.1⟩, ?_⟩
+      · intro w hw
+        rcases mem_insertByLo.mp hw with hw | hw
+        · subst hw
+          rcases hd y (by simp) with h | h
+          · omega
+          · exact h
+        · exact hpw.1 w hw
+      · intro w hw
+        rcases List.mem_cons.mp hw with hw | hw
+        · subst hw; exact hy
+        · exact ih.2 w hw
+
+/-- sorting non-overlapping extents by their start puts them in address order -/
+theorem sep_sortByLo : ∀ (l : List Range), Disj l → Sep (sortByLo l)
+  | [], _ => ⟨by simp [sortByLo], by simp [sortByLo]⟩
+  | x :: xs, hd => by
+    have hpw := List.pairwise_cons.mp hd.1
+    have ih := sep_sortByLo xs ⟨hpw.2, fun z hz => hd.2 z (by simp [hz])⟩
+    have : sortByLo (x :: xs) = insertByLo x (sortByLo xs) := by simp [sortByLo]
+    rw [this]
+    exact sep_insertByLo x (hd.2 x (by simp)) _ ih (fun y hy => hpw.1 y (mem_sortByLo.mp hy))
+
 /-! ## reload plan -/
 
 theorem addFile_eq (k : List Nat) (a : Nat) : addFile k a = if a ∈ k then k else k ++ [a] := by
